@@ -198,6 +198,13 @@ Theorem C16_byteslice_refines : forall ops st, bwf st -> forallb (fun o => negb 
   rbrun (babs st) ops = (babs (fst (brun st ops)), snd (brun st ops)) /\ bwf (fst (brun st ops)).
 Proof. exact brun_refines. Qed.
 
+(* And byte_slices that are never sliced own their arrays: with item assignment but without slicing they
+   refine independent byte strings too.  (The two theorems together: only a slice followed by an item
+   assignment can go wrong.) *)
+Theorem C16_byteslice_unsliced_refines : forall ops st, bown st -> forallb (fun o => negb (is_bslice o)) ops = true ->
+  rbrun (babs st) ops = (babs (fst (brun st ops)), snd (brun st ops)) /\ bown (fst (brun st ops)).
+Proof. exact brun_own_refines. Qed.
+
 (* ---------------------------------------------------------------- strings are indexed and sliced by code point *)
 
 (* []rune(s) inverts UTF-8 encoding on every sequence of Unicode scalar values ... *)
@@ -239,3 +246,9 @@ Example C16_str_example : str_get (utf8_string [104; 233; 19990]) (VInt (-1)) = 
 Proof. vm_compute. reflexivity. Qed.
 Example C16_keys_nodup_sat : keys_nodup (map fst [([97], VInt 1); ([98], VNil)]) = true.
 Proof. reflexivity. Qed.
+Example C16_bown_sat : bown (BS [] []) /\ bown (BS [[1; 2]] [BO 0 0 2]).
+Proof.
+  split; split; try reflexivity; intros r o H.
+  - destruct r; discriminate.
+  - destruct r as [|[|r]]; simpl in H; inversion H; subst; auto.
+Qed.
